@@ -9,6 +9,7 @@ import (
 	"math/big"
 	"sort"
 	"strings"
+	"unicode/utf8"
 
 	spg "go.1password.io/spg"
 )
@@ -38,9 +39,14 @@ func ClassString(f spg.CTFlag) string {
 
 // Chars splits a string into its characters (Unicode code points).
 func Chars(s string) []string {
+	// bytewise faithful: a byte that is not part of a valid UTF-8 sequence is a character of its own (this is
+	// how a string is split into "characters" everywhere in the library's documentation-by-example: Latin-1
+	// bytes stay what they are), so joining the pieces always gives the string back
 	out := make([]string, 0, len(s))
-	for _, r := range s {
-		out = append(out, string(r))
+	for len(s) > 0 {
+		_, size := utf8.DecodeRuneInString(s)
+		out = append(out, s[:size])
+		s = s[size:]
 	}
 	return out
 }
